@@ -348,9 +348,9 @@ func ResultDigest(p Proto, v interface{}) string {
 	return fmt.Sprintf("%T:%x", v, v)
 }
 
-// DrawToy draws a toy-protocol scenario: 2..4 parties, 1..5 message rounds of drawn shape.
-func DrawToy(c *fw.Ctx) *Scenario {
-	n := 2 + c.S.Draw(3, "toy-n")
+// DrawToy draws a toy-protocol scenario: minN..4 parties, 1..5 message rounds of drawn shape.
+func DrawToy(c *fw.Ctx, minN int) *Scenario {
+	n := minN + c.S.Draw(5-minN, "toy-n")
 	ids := DrawIDs(c.S, n)
 	rounds := 1 + c.S.Draw(5, "toy-rounds")
 	var shapes []ToyShape
